@@ -1,5 +1,15 @@
 import Gaftools.Props.TieA
 import Gaftools.Props.TieA2
+import Gaftools.Props.TieA14
 #print axioms Gaftools.TieA.isSecondary_gen_eq_model
 #print axioms Gaftools.TieA.bump_gen
 #print axioms Gaftools.TieA.cigarStep_gen
+#print axioms Gaftools.TieA.statFor_cnt_gen
+#print axioms Gaftools.TieA.cigLoop_gen
+#print axioms Gaftools.TieA.statStep_gen
+#print axioms Gaftools.TieA.step_statKeysOk
+#print axioms Gaftools.TieA.statInit_gen
+#print axioms Gaftools.TieA.statFoldl_gen
+#print axioms Gaftools.TieA.statRun_gen
+#print axioms Gaftools.TieA.statReport_gen
+#print axioms Gaftools.TieA.report_run_gen
